@@ -81,11 +81,15 @@ func isNotSymbolCharacter(c byte) bool {
 func expect(r *bufio.Reader, c byte) bool {
 	ReadWhitespace(r)
 	res, err := r.ReadByte()
+	if err != nil {
+		return false
+	}
+
 	if res != c {
 		_ = r.UnreadByte()
 	}
 
-	return res == c && err != io.EOF
+	return res == c
 }
 
 func untilFixed(b byte) func(byte) bool {
